@@ -19,7 +19,7 @@ from .common import (
 
 TARGET = os.path.join(WORK, "kani-target")
 PLAYBACK_TARGET = os.path.join(WORK, "kani-playback-target")
-PLAYBACK_DIR = os.path.join(WORK, "playback")
+PLAYBACK_DIR = os.path.join(VERIF, "work", "playback")  # the harness modules include!() this absolute path
 
 # crate -> build configuration. Harness sources live in /verif/kani/<crate>.rs and are compiled
 # inside the real crate through the cfg(kani) `#[path]` hook in its lib.rs.
